@@ -36,6 +36,16 @@ def gen(tier, rng):
         label, body = rng.choice(c05.bodies(kind, rng, ext))
         st = rng.choice([200, 200, 400, 401, 500, 201, 0, 204, 202, 302, 404, 503, 100 + rng.randrange(500)])
         base.append((c05.http_line("sync", kind, ext, st, rng.choice(c05.CTS[:6]), body if st else b"transport failure"), "response/" + label))
+    # every kind under every class of status, deterministically (the random draw above does not guarantee a
+    # given kind/status cell)
+    for kind in kinds:
+        bs = c05.bodies(kind, rng, False)
+        for si, st in enumerate([200, 201, 202, 204, 206, 302, 304, 400, 401, 404, 429, 500, 503, 0, 100, 599]):
+            label, body = bs[(si * 3) % len(bs)] if st not in (204, 304) else ("empty", b"")
+            base.append((c05.http_line("sync", kind, False, st, c05.CTS[si % 2], body if st else b"transport failure"), "status-grid/" + label))
+            if st in (200, 204, 400):
+                base.append((c05.http_line("sync", kind, False, st, c05.CTS[1], bs[1][1]), "status-grid/success-doc"))
+                base.append((c05.http_line("sync", kind, False, st, c05.CTS[1], bs[2][1]), "status-grid/error-doc"))
     # the poll loop
     for s in P.scripts(3 if tier == "quick" else 4):
         for term in ("success", "denied", "malformed200"):
